@@ -41,6 +41,7 @@ def run(ctx):
     decompose_stream(ctx, cirq, mods, checks, 170 * n)
     channel_stream(ctx, cirq, mods, checks, 90 * n)
     wrapper_stream(ctx, cirq, mods, checks, 120 * n)
+    circuit_op_grid(ctx, cirq, mods, checks, n)
     predicate_stream(ctx, cirq, mods, 300 * n)
     evaluate(ctx, checks)
 
@@ -290,6 +291,74 @@ def wrapper_stream(ctx, cirq, mods, checks, n):
         ctx.count('wrapper:' + how, [g.key(), how], True, sample=dict(gate=g.key(), wrapper=how))
         checks.append(('wrapper:' + how, expr, f'{how} applied to {g.fam} {g.key()[1]} does not preserve the agreement with the matrix',
                        dict(signature=f'wrapper:{how}:{g.fam}', gate=g.key(), how=how)))
+
+
+def circuit_op_grid(ctx, cirq, mods, checks, n):
+    """CircuitOperation as a gate-like value: every description it offers (unitary protocol, Circuit.unitary, apply_unitary,
+    decompose, mapped_circuit) on one- and two-qubit bodies of 2-3 operations that do not commute, for every repetition count
+    (incl. negative), under tags / a control / a qubit map.  Runs for every seed: the one-qubit body has its own fast path."""
+    rng = ctx.rng
+    oneq = ['XPow', 'YPow', 'ZPow', 'HPow', 'PhasedX', 'Rz', 'Rx', 'PhasedXZ']
+    for case in range(24 * n):
+        k = 1 if case % 3 != 2 else 2
+        qs = cirq.LineQubit.range(k)
+        while True:
+            body = []
+            for _ in range(rng.choice([2, 2, 3])):
+                g = gates.draw(rng, rng.choice(oneq if k == 1 or rng.random() < 0.5 else ['CXPow', 'CZPow', 'ISwapPow']))
+                w = rng.sample(range(k), len(g.shape))
+                body.append((g, w))
+            if {i for _, w in body for i in w} == set(range(k)):      # the operation acts on exactly these qubits
+                break
+        sub = cirq.FrozenCircuit([g.cirq_gate(cirq, mods).on(*[qs[i] for i in w]) for g, w in body])
+        reps = [1, 2, -1, 3, -2][case % 5]
+        cop = cirq.CircuitOperation(sub, repetitions=reps)
+        sh = gates.nlist([2] * k)
+        term = '[' + '; '.join(f'({g.coq()}, {gates.nlist(w)})' for g, w in body) + ']'
+        rep_term = ' ++ '.join([term] * abs(reps))
+        inner = f'(circ_unitary FOps {sh} ({rep_term}))'
+        model = f'(mdagger FOps {inner})' if reps < 0 else inner
+        descs = {}
+        try:
+            descs['cirq.unitary'] = cirq.unitary(cop)
+            descs['Circuit.unitary'] = cirq.Circuit(cop).unitary(qubit_order=qs, qubits_that_should_be_present=qs)
+            descs['decompose'] = cirq.Circuit(cirq.decompose(cop)).unitary(qubit_order=qs, qubits_that_should_be_present=qs)
+            descs['mapped_circuit'] = cop.mapped_circuit(deep=True).unitary(qubit_order=qs, qubits_that_should_be_present=qs)
+            args = cirq.ApplyUnitaryArgs.for_unitary(qid_shape=(2,) * k)
+            descs['apply_unitary'] = np.asarray(cirq.apply_unitary(cop, args)).reshape(2 ** k, 2 ** k)
+            descs['tagged'] = cirq.unitary(cop.with_tags('t'))
+            st = cirq.StateVectorSimulationState(qubits=qs, initial_state=0, dtype=np.complex128)
+            cirq.act_on(cop, st)
+            col0 = np.asarray(st.target_tensor).reshape(-1)
+        except Exception as e:
+            ctx.violation('wrapper:circuit_op_grid:raises', f'CircuitOperation({sub!r}, repetitions={reps}) raised {type(e).__name__}: {e}',
+                          dict(kind='wrapper', how='circuit_op_grid', body=[[g.key(), w] for g, w in body], reps=reps))
+            continue
+        key = [[g.key(), w] for g, w in body]
+        for name, u in descs.items():
+            ctx.count('wrapper:circuit_op_grid', [key, reps, name], True, sample=dict(body=[[g.fam, w] for g, w in body], repetitions=reps, description=name))
+            checks.append(('wrapper:circuit_op_grid', f'fcll_close {TOL} {model} {gates.fmat(np.asarray(u))}',
+                           f'{name} of CircuitOperation(body {[[g.fam, g.key()[1], w] for g, w in body]}, repetitions={reps}) is not the ordered product of the body',
+                           dict(signature=f'wrapper:circuit_op_grid:{name}', body=key, reps=reps, description=name)))
+        checks.append(('wrapper:circuit_op_grid', f'fcl_close {TOL} (map (fun r => hd (0, 0)%float r) {model}) {gates.fvec(col0)}',
+                       f'act_on of CircuitOperation(body {[[g.fam, w] for g, w in body]}, repetitions={reps}) on |0..0> is not the first column of the ordered product',
+                       dict(signature='wrapper:circuit_op_grid:act_on', body=key, reps=reps, description='act_on')))
+        # under a control and a qubit map
+        cq = cirq.LineQubit(50)
+        qs2 = cirq.LineQubit.range(10, 10 + k)[::-1]
+        try:
+            uc = cirq.Circuit(cop.controlled_by(cq)).unitary(qubit_order=[cq] + list(qs))
+            um = cirq.Circuit(cop.with_qubits(*qs2)).unitary(qubit_order=qs2, qubits_that_should_be_present=qs2)
+        except Exception as e:
+            ctx.violation('wrapper:circuit_op_grid:raises', f'controlled / remapped CircuitOperation raised {type(e).__name__}: {e}',
+                          dict(kind='wrapper', how='circuit_op_grid', body=key, reps=reps))
+            continue
+        checks.append(('wrapper:circuit_op_grid', f'fcll_close {TOL} (ctrl_matrix FOps [2]%nat [[1]%nat] {model}) {gates.fmat(uc)}',
+                       f'controlled CircuitOperation (body {[[g.fam, w] for g, w in body]}, repetitions={reps}) is not the controlled product',
+                       dict(signature='wrapper:circuit_op_grid:controlled_by', body=key, reps=reps, description='controlled_by')))
+        checks.append(('wrapper:circuit_op_grid', f'fcll_close {TOL} {model} {gates.fmat(um)}',
+                       f'CircuitOperation.with_qubits (body {[[g.fam, w] for g, w in body]}, repetitions={reps}) changes the matrix',
+                       dict(signature='wrapper:circuit_op_grid:with_qubits', body=key, reps=reps, description='with_qubits')))
 
 
 def predicate_stream(ctx, cirq, mods, n):
